@@ -261,6 +261,22 @@ func cmdCheck(args []string) int {
 		return 2
 	}
 	r := newResult(prop, a.tier, a.seed)
+	if a.replay != "" {
+		handled, err := replayCase(a, r, prop)
+		if err != nil {
+			fmt.Fprintf(os.Stderr, "xzh replay: %v\n", err)
+			return 2
+		}
+		if handled {
+			if r.Evaluations == 0 {
+				r.Evaluations = 1
+			}
+			if a.out != "" {
+				r.write(a.out)
+			}
+			return 0
+		}
+	}
 	if err := f(a, r); err != nil {
 		fmt.Fprintf(os.Stderr, "xzh check %s: %v\n", prop, err)
 		return 2
